@@ -143,7 +143,7 @@ Example C02_example_predicate :
 Proof. vm_compute. reflexivity. Qed.
 
 (** Ordered = false destination (behaviour of the code, flag on): the duplicate index 1 is accepted *)
-Definition only_unordered : Defects := Build_Defects false false false true false false false false false false.
+Definition only_unordered : Defects := Build_Defects false false false true false false false false false false false.
 Theorem C02_unordered_dst_refuted :
   option_map (map o_rc) (run only_unordered w3 q3 state_init [IBlock [req 1 3 1 0; req 1 3 1 0]])
   = Some [[(1, 0, 2); (1, 0, 2)]] /\
@@ -151,7 +151,7 @@ Theorem C02_unordered_dst_refuted :
 Proof. split; vm_compute; reflexivity. Qed.
 
 (** public DeleteInterchain (flag on): the pair's counters are reset and index 1 is accepted again *)
-Definition only_delete : Defects := Build_Defects false false false false false true false false false false.
+Definition only_delete : Defects := Build_Defects false false false false false true false false false false false.
 Theorem C02_delete_interchain_refuted :
   prop_on_model 2 only_delete w3 q3 [IBlock [req 1 2 1 0]; IBlock [OCall 2 1 0 0 0]; IBlock [req 1 2 1 0]] = Some false.
 Proof. vm_compute. reflexivity. Qed.
@@ -160,7 +160,7 @@ Proof. vm_compute. reflexivity. Qed.
 Definition w_grp : world :=
   Build_world [Build_svc_info 0 1 true true true []; Build_svc_info 0 2 true true true [];
                Build_svc_info 0 3 true true true []] [] false.
-Definition only_late_child : Defects := Build_Defects false false false false false false true false false false.
+Definition only_late_child : Defects := Build_Defects false false false false false false true false false false false.
 Definition greq (f t i : N) (T : Z) (g n : N) : op := OIbtp (Build_ibtp f t i 0 T (Some (g, n)) 0) true.
 Theorem C02_late_child_refuted :
   prop_on_model 2 only_late_child w_grp (Build_query [(1, 2, 1); (1, 3, 1)] [(1, 1, 1)] [] 3)
